@@ -39,7 +39,7 @@ include ok
 theorem checkedG_after_pre (ck : Checker) (call : Call) (e : Event)
     (he : e ∈ (checkedG h ck call).trace) (hnc : e.isCheck = false) :
     ck.pre = [] ∨ ∃ g ∈ ck.pre,
-      ∀ c ∈ g, tPre (kwargsFromCall ck.paramNames ck.kwdefaults call.args call.kwargs) c = true := by
+      ∀ c ∈ g, tPre (kwargsFromCall ck.paramNames ck.kwdefaults call.args call.kwargs ck.posOnly) c = true := by
   unfold checkedG at he
   simp only at he
   split at he
@@ -58,7 +58,7 @@ theorem checkedG_after_pre (ck : Checker) (call : Call) (e : Event)
 theorem checkedG_body_dnf (ck : Checker) (call : Call)
     (hb : bodyEntered (checkedG h ck call).trace) :
     ck.pre = [] ∨ ∃ g ∈ ck.pre,
-      ∀ c ∈ g, tPre (kwargsFromCall ck.paramNames ck.kwdefaults call.args call.kwargs) c = true := by
+      ∀ c ∈ g, tPre (kwargsFromCall ck.paramNames ck.kwdefaults call.args call.kwargs ck.posOnly) c = true := by
   obtain ⟨e, he, hbe⟩ := hb
   apply checkedG_after_pre ok ck call e he
   cases hc : e.isCheck with
@@ -68,7 +68,7 @@ theorem checkedG_body_dnf (ck : Checker) (call : Call)
 theorem checkedG_capture_dnf (ck : Checker) (call : Call)
     (hb : captured (checkedG h ck call).trace) :
     ck.pre = [] ∨ ∃ g ∈ ck.pre,
-      ∀ c ∈ g, tPre (kwargsFromCall ck.paramNames ck.kwdefaults call.args call.kwargs) c = true := by
+      ∀ c ∈ g, tPre (kwargsFromCall ck.paramNames ck.kwdefaults call.args call.kwargs ck.posOnly) c = true := by
   obtain ⟨e, he, hbe⟩ := hb
   apply checkedG_after_pre ok ck call e he
   cases hc : e.isCheck with
@@ -83,22 +83,22 @@ theorem checkedG_enters (h : Hooks) (tPre fPre : Kwargs → Contract → Bool) (
     (hF : ∀ kw c, fPre kw c = true → (h.evPre kw c).out = .ok true)
     (ck : Checker) (call : Call)
     (hvalid : assertResolvedKwargsValid (!ck.posts.isEmpty)
-      (kwargsFromCall ck.paramNames ck.kwdefaults call.args call.kwargs) = none)
+      (kwargsFromCall ck.paramNames ck.kwdefaults call.args call.kwargs ck.posOnly) = none)
     (htot : ∀ g ∈ ck.pre, ∀ c ∈ g,
-      tPre (kwargsFromCall ck.paramNames ck.kwdefaults call.args call.kwargs) c = true ∨
-      fPre (kwargsFromCall ck.paramNames ck.kwdefaults call.args call.kwargs) c = true)
+      tPre (kwargsFromCall ck.paramNames ck.kwdefaults call.args call.kwargs ck.posOnly) c = true ∨
+      fPre (kwargsFromCall ck.paramNames ck.kwdefaults call.args call.kwargs ck.posOnly) c = true)
     (hdnf : ck.pre = [] ∨ ∃ g ∈ ck.pre,
-      ∀ c ∈ g, tPre (kwargsFromCall ck.paramNames ck.kwdefaults call.args call.kwargs) c = true)
-    (hcap : ∃ old, (h.capture (kwargsFromCall ck.paramNames ck.kwdefaults call.args call.kwargs) [] ck.snaps).out = .ok old) :
+      ∀ c ∈ g, tPre (kwargsFromCall ck.paramNames ck.kwdefaults call.args call.kwargs ck.posOnly) c = true)
+    (hcap : ∃ old, (h.capture (kwargsFromCall ck.paramNames ck.kwdefaults call.args call.kwargs ck.posOnly) [] ck.snaps).out = .ok old) :
     bodyEntered (checkedG h ck call).trace := by
   obtain ⟨e, he, hbe⟩ := ok.bodyNonempty call
   refine ⟨e, ?_, hbe⟩
   unfold checkedG
   simp only [hvalid]
-  have hpre : (assertPreG (h.evPre (kwargsFromCall ck.paramNames ck.kwdefaults call.args call.kwargs))
-      (fun c => h.mkErr c (kwargsFromCall ck.paramNames ck.kwdefaults call.args call.kwargs)) ck.pre).out = .ok none := by
+  have hpre : (assertPreG (h.evPre (kwargsFromCall ck.paramNames ck.kwdefaults call.args call.kwargs ck.posOnly))
+      (fun c => h.mkErr c (kwargsFromCall ck.paramNames ck.kwdefaults call.args call.kwargs ck.posOnly)) ck.pre).out = .ok none := by
     unfold assertPreG
-    have haux : (assertPreAuxG (h.evPre (kwargsFromCall ck.paramNames ck.kwdefaults call.args call.kwargs)) none ck.pre).out = .ok none := by
+    have haux : (assertPreAuxG (h.evPre (kwargsFromCall ck.paramNames ck.kwdefaults call.args call.kwargs ck.posOnly)) none ck.pre).out = .ok none := by
       rcases hdnf with hnil | hex
       · rw [hnil]; rfl
       · exact assertPreAuxG_holds _ (tPre _) (fPre _) (ok.preT _) (hF _) ck.pre none htot hex
@@ -125,22 +125,22 @@ theorem checkedG_violated (h : Hooks) (tPre fPre : Kwargs → Contract → Bool)
     (hF : ∀ kw c, fPre kw c = true → (h.evPre kw c).out = .ok true)
     (ck : Checker) (call : Call)
     (hvalid : assertResolvedKwargsValid (!ck.posts.isEmpty)
-      (kwargsFromCall ck.paramNames ck.kwdefaults call.args call.kwargs) = none)
+      (kwargsFromCall ck.paramNames ck.kwdefaults call.args call.kwargs ck.posOnly) = none)
     (htot : ∀ g ∈ ck.pre, ∀ c ∈ g,
-      tPre (kwargsFromCall ck.paramNames ck.kwdefaults call.args call.kwargs) c = true ∨
-      fPre (kwargsFromCall ck.paramNames ck.kwdefaults call.args call.kwargs) c = true)
-    (hno : ∀ g ∈ ck.pre, ¬ ∀ c ∈ g, tPre (kwargsFromCall ck.paramNames ck.kwdefaults call.args call.kwargs) c = true)
+      tPre (kwargsFromCall ck.paramNames ck.kwdefaults call.args call.kwargs ck.posOnly) c = true ∨
+      fPre (kwargsFromCall ck.paramNames ck.kwdefaults call.args call.kwargs ck.posOnly) c = true)
+    (hno : ∀ g ∈ ck.pre, ¬ ∀ c ∈ g, tPre (kwargsFromCall ck.paramNames ck.kwdefaults call.args call.kwargs ck.posOnly) c = true)
     (gl : List Contract) (hgl : ck.pre.getLast? = some gl)
-    (c : Contract) (hc : gl.find? (fun c => !tPre (kwargsFromCall ck.paramNames ck.kwdefaults call.args call.kwargs) c) = some c)
-    (err : Raised) (herr : (h.mkErr c (kwargsFromCall ck.paramNames ck.kwdefaults call.args call.kwargs)).out = .ok err) :
+    (c : Contract) (hc : gl.find? (fun c => !tPre (kwargsFromCall ck.paramNames ck.kwdefaults call.args call.kwargs ck.posOnly) c) = some c)
+    (err : Raised) (herr : (h.mkErr c (kwargsFromCall ck.paramNames ck.kwdefaults call.args call.kwargs ck.posOnly)).out = .ok err) :
     (checkedG h ck call).out = .error err := by
   unfold checkedG
   simp only [hvalid]
   have haux := assertPreAuxG_violated _ (tPre _) (fPre _) (ok.preT _) (hF _) ck.pre none htot hno
   rw [hgl] at haux
   simp only [hc] at haux
-  have hpre : (assertPreG (h.evPre (kwargsFromCall ck.paramNames ck.kwdefaults call.args call.kwargs))
-      (fun c => h.mkErr c (kwargsFromCall ck.paramNames ck.kwdefaults call.args call.kwargs)) ck.pre).out = .ok (some err) := by
+  have hpre : (assertPreG (h.evPre (kwargsFromCall ck.paramNames ck.kwdefaults call.args call.kwargs ck.posOnly))
+      (fun c => h.mkErr c (kwargsFromCall ck.paramNames ck.kwdefaults call.args call.kwargs ck.posOnly)) ck.pre).out = .ok (some err) := by
     unfold assertPreG
     rw [bind_out_of_ok haux]
     simp only
